@@ -229,6 +229,17 @@ def spaces(tier, seed):
                             "amb_sfx": ["", ".amb"][k % 2], "eta": ETAS[k % 3], "ath": ath, "ker": ker,
                             "depth": depth, "thr": thr, "axis": ["int", "half"][(k // 2) % 2],
                         })
+    # tall volumes (more rows than any internal strip or block a step may cut the volume into): a statistic of the
+    # whole volume (normalisation by its global extrema, percentiles) must not become one of a strip
+    for t in ("min", "max"):
+        for ci, cfg in enumerate(menu):
+            if cfg["confidence_method"] not in ("risk", "ambiguity"):
+                continue
+            if quick and ci % 2 != seed % 2 and cfg["confidence_method"] == "ambiguity":
+                continue
+            packed.append({"kind": "packed", "alpha": "a16", "nd": 3, "type": t, "shape": [1100, 2],
+                           "stride": 7, "off": (seed * 17 + ci) % 125, "pre": 0, "axis": "int", "sfx": "",
+                           "step": cfg, "spike": True})
     # small volumes
     small = []
     for alpha in (["a8", "a16"] if quick else alphas):
@@ -659,6 +670,11 @@ def step_on_volume(viol, site, costs, disps, t, cfg, sfx, npre, exact):
 
 def run_packed(case):
     costs = packed_costs(case)
+    if case.get("spike"):
+        # the extrema of the whole volume sit on its first two pixels only (every other pixel holds costs strictly
+        # inside them): a part of the volume processed on its own has other extrema
+        costs[0, 0, :] = np.float32(64.0)
+        costs[0, 0, 0] = np.float32(-32.0)
     disps = _axis(case["nd"], case["axis"])
     viol = V()
     calls, dig = step_on_volume(viol, "step", costs, disps, case["type"], case["step"], case["sfx"], case["pre"],
